@@ -55,6 +55,7 @@ OPTS = st.fixed_dictionaries({
     "validate": st.sampled_from([1, 1, 0]),
     "parsebitfield": st.sampled_from([1, 0]),
     "quitonerror": st.sampled_from([0, 1]),
+    "labelmsm": st.sampled_from([1, 1, 2]),
 })
 
 
